@@ -62,6 +62,11 @@ def impl_ranks(pop, stale=None):
         # (re-evaluated or noisy objectives); every third population has such members
         ind = Individual([float(k % max(1, (len(pop) + 1) // 2))] if len(pop) % 3 == 0 else [float(k)])
         inds.append(ind)
+    if len(pop) % 2 == 1 or len(pop) % 5 == 0:
+        # the order of the population list is not the order in which its members were created (ids not ascending):
+        # populations are merged, sorted, shuffled and truncated between two sorts
+        import random as _r
+        _r.Random(len(pop) * 31 + sum(len(c) for c, _ in pop)).shuffle(inds)
     if stale is not None:
         for ind, (c, m) in zip(inds, stale):
             ind.costs = list(c)
